@@ -19,6 +19,9 @@ func init() { core.Register(c16{}) }
 
 func (c16) ID() string { return "C16" }
 
+// EvalFeatures names the counters of judged executions.
+func (c16) EvalFeatures() []string { return []string{"script-side-calls", "signatures"} }
+
 type MyInt int
 type MyInt8 int8
 type MyFloat float64
